@@ -257,17 +257,27 @@ impl Xot {
     /// have siblings.
     /// If it's an unattached tree, it's the top node of that tree
     pub fn top_element(&self, node: Node) -> Node {
-        if self.value_type(node) == ValueType::Document {
-            return self.document_element(node).unwrap();
-        }
-        let mut top = node;
+        let mut top = None;
+        let mut root = node;
         for ancestor in self.ancestors(node) {
             if let Value::Element(_) = self.value(ancestor) {
-                top = ancestor;
+                top = Some(ancestor);
+            }
+            root = ancestor;
+        }
+        if let Some(top) = top {
+            return top;
+        }
+        // no element on the way up: the document node itself, or a comment,
+        // processing instruction or text beside the document element
+        if self.value_type(root) == ValueType::Document {
+            if let Ok(element) = self.document_element(root) {
+                return element;
             }
         }
-        // XXX in an unattached tree this may not be an element.
-        top
+        // XXX in an unattached tree (or a document without any element)
+        // this is not an element.
+        root
     }
 
     /// Obtain root of the tree.
